@@ -42,6 +42,10 @@ def build(cfg, values=None):
             p.offset = ctx.V('d')    # laminate with an offset reference surface (A, B + d A, D + 2 d B + d^2 A)
         p.calc_k0(silent=True)      # public sequence: the laminate F used by calc_fint is set here
         p.nx, p.ny = ny + 2, nx + 1   # the numbers of integration points passed as ARGUMENTS must win over the attributes
+        kw = dict(nx=nx, ny=ny)
+        if cfg.get('by_attributes'):
+            p.nx, p.ny = nx, ny          # ... and when they are not passed, the attributes nx, ny (in that order) are used
+            kw = {}
         c = state(ctx, size, cfg.get('state', 'generic'))
         S = series_of(p, model)
         ops = E.donnell_ops('cpanel' if model == 'cpanel' else 'plate', r=p.r)
@@ -70,16 +74,16 @@ def build(cfg, values=None):
                     tabs[(ix, iy)] = [[Fn[ix, iy, i, j] for j in range(6)] for i in range(6)]
             Ffun = lambda ix, iy: tabs[(ix, iy)]
         if variant == 'fint':
-            f = p.calc_fint(c, nx=nx, ny=ny, Fnxny=Fn, silent=True)
-            G = PW.fint_state(ctx.atoms, S, ops, Ffun, c, ctx.gauss[nx], ctx.gauss[ny], NL=1)
+            f = p.calc_fint(c, Fnxny=Fn, silent=True, **kw)
+            G = PW.fint_state(ctx.atoms, S, ops, Ffun, c, ctx.rule(nx), ctx.rule(ny), NL=1)
             if len(f) != size:
                 obs.append(('fint-length', Sym.lift(len(f)), Sym.lift(size)))
             for k in range(size):
                 obs.append(('fint[%d]' % k, f[k], G.get(k, 0)))
         elif variant == 'kT':
-            kT = p.calc_kT(c=c, nx=nx, ny=ny, Fnxny=Fn, silent=True).todict()
-            HL = PW.kL_state(ctx.atoms, S, ops, Ffun, c, ctx.gauss[nx], ctx.gauss[ny], NL=1)
-            HG = PW.kG_state(ctx.atoms, S, ops, Ffun, c, ctx.gauss[nx], ctx.gauss[ny], NL=1)
+            kT = p.calc_kT(c=c, Fnxny=Fn, silent=True, **kw).todict()
+            HL = PW.kL_state(ctx.atoms, S, ops, Ffun, c, ctx.rule(nx), ctx.rule(ny), NL=1)
+            HG = PW.kG_state(ctx.atoms, S, ops, Ffun, c, ctx.rule(nx), ctx.rule(ny), NL=1)
             for k, v in HG.items():
                 HL[k] = HL[k] + v if k in HL else v
             H = symmetric_completion(HL)
@@ -159,6 +163,8 @@ def configs(tier, seed):
         out.append({'model': model, 'm': 2, 'n': 1, 'nx': 1, 'ny': 1, 'variant': 'kT', 'laminate_offset': True, 'group': 'kT-jacobian-offset-laminate:%s' % model, 'timeout_ms': 120000})
         out.append({'model': model, 'm': 1, 'n': 2, 'nx': 1, 'ny': 1, 'variant': 'fint', 'laminate_offset': True, 'group': 'fint-gradient-offset-laminate:%s' % model})
         out.append({'model': model, 'm': 2, 'n': 1, 'nx': 2, 'ny': 1, 'variant': 'fint', 'group': 'fint-gradient-2x1:%s' % model})
+        out.append({'model': model, 'm': 1, 'n': 2, 'nx': 1, 'ny': 2, 'variant': 'fint', 'by_attributes': True, 'group': 'fint-gradient-1x2-by-attributes:%s' % model})
+        out.append({'model': model, 'm': 2, 'n': 1, 'nx': 2, 'ny': 1, 'variant': 'kT', 'by_attributes': True, 'group': 'kT-jacobian-2x1-by-attributes:%s' % model, 'timeout_ms': 120000})
         out.append({'model': model, 'm': 1, 'n': 2, 'nx': 1, 'ny': 2, 'variant': 'fint', 'table': True, 'group': 'fint-per-point-table:%s' % model})
         out.append({'model': model, 'm': 2, 'n': 2, 'nx': 2, 'ny': 2, 'variant': 'kT0', 'group': 'undeformed:%s' % model})
         out.append({'model': model, 'm': 4, 'n': 1, 'nx': 1, 'ny': 1, 'variant': 'fint', 'group': 'fint-gradient-order-4-5:%s' % model})
